@@ -29,6 +29,9 @@ os.kill(os.getpid(), signal.SIGKILL)
 '''
 
 
+INFLIGHT = []
+
+
 def pyval(i):
     """the pipeline value of example i: falsy / None values are legal examples too"""
     return {1: None, 2: 0, 3: ''}.get(i, i * 10 + 1)
@@ -78,10 +81,19 @@ def run_segment(ld, n, cdir, ops, sleep=0.0, handles=None):
                     outs.append(['val', enc(d[np.int64(op[2])], op[2] % n if -n <= op[2] < n else op[2])])
                 elif k == 'slice':
                     outs.append(['vals', [enc(x, op[2] + j) for j, x in enumerate(d[op[2]:op[3]])]])
+                elif k == 'iterpart':
+                    # an iteration IN FLIGHT: the first op[2] examples are consumed, the iterator stays suspended (and referenced)
+                    # - if this segment ends with a kill, the process dies in the middle of the pass
+                    it = iter(d)
+                    INFLIGHT.append((h, it))
+                    outs.append(['vals', [enc(next(it), j) for j in range(op[2])]])
                 elif k == 'copy':
                     handles.append(d.copy(freeze=True))
                     outs.append(['new', len(handles) - 1])
                 elif k == 'release':
+                    # iterators in flight over this handle are dropped with it (they hold a reference to the dataset)
+                    INFLIGHT[:] = [(hh, x) for hh, x in INFLIGHT if hh != h]
+                    it = None
                     handles[h] = None
                     del d
                     gc.collect()
@@ -111,6 +123,7 @@ def run_history(ld, n, segments, workdir):
             hs = []
             outs, calls = run_segment(ld, n, cdir, local, handles=hs)
             final = inspect_dir(cdir)          # observed while the surviving handles are still alive
+            del INFLIGHT[:]
             hs.clear()                         # then release what is left (not part of the compared history)
             gc.collect()
         else:
@@ -137,9 +150,19 @@ def inspect_dir(cdir):
     exists = os.path.isdir(cdir) and len(os.listdir(cdir)) > 0
     stored = []
     if exists:
-        import diskcache
+        import diskcache, sqlite3
+        db = os.path.join(cdir, 'cache.db')
+        if os.path.exists(db):
+            try:
+                con = sqlite3.connect(db, timeout=2)
+                con.execute('BEGIN IMMEDIATE')
+                con.rollback()
+                con.close()
+            except sqlite3.OperationalError:
+                return exists, [-3]      # locked: somebody holds an open write transaction (diskcache itself would retry forever)
         c = diskcache.Cache(cdir)
         keys = list(c.iterkeys())
+
         stored = sorted(int(k) for k in keys)
         if len(set(stored)) != len(stored):
             stored.append(-2)        # the same example stored under two keys
@@ -160,6 +183,9 @@ def coq_ops(segments):
             elif k in ('get', 'getnp', 'getkey'): out.append(f'DGet {op[1]}%nat {gen_a.z(op[2])}')
             elif k == 'slice':
                 for i in range(op[2], op[3]):
+                    out.append(f'DGet {op[1]}%nat {i}')
+            elif k == 'iterpart':
+                for i in range(op[2]):
                     out.append(f'DGet {op[1]}%nat {i}')
             elif k == 'copy': out.append(f'DCopyH {op[1]}%nat')
             elif k == 'release': out.append(f'DRelease {op[1]}%nat')
@@ -184,11 +210,12 @@ def flat_outs(segments, outs):
     ops = [op for si, seg in enumerate(segments) for op in (seg + ([['kill']] if si != len(segments) - 1 else []))]
     res = []
     for op, o in zip(ops, outs):
-        if op[0] == 'slice':
+        if op[0] in ('slice', 'iterpart'):
+            cnt = (op[3] - op[2]) if op[0] == 'slice' else op[2]
             if o[0] == 'vals':
                 res += [['val', v] for v in o[1]]
             else:
-                res += [o] * (op[3] - op[2])
+                res += [o] * cnt
         else:
             res.append(o)
     return res
@@ -291,10 +318,12 @@ def gen_history_consistent(r, n, nseg):
                 nh += 1
                 continue
             h = r.choice(list(live))
-            k = r.choice(['get', 'get', 'getnp', 'slice', 'copy', 'release', 'release'] + (['getkey', 'getkey'] if keyed else []))
+            k = r.choice(['get', 'get', 'getnp', 'slice', 'copy', 'release', 'release', 'iterpart', 'iterpart'] + (['getkey', 'getkey'] if keyed else []))
             if r.random() < 0.05:
                 h = nh + 3
-            if k == 'getkey':
+            if k == 'iterpart':
+                ops.append([k, h, r.randint(0, n)])
+            elif k == 'getkey':
                 ops.append([k, h, r.randint(0, n - 1)])
             elif k in ('get', 'getnp'):
                 ops.append([k, h, r.randint(-n - 1, n)])
@@ -324,6 +353,8 @@ def direct(n, segments, res):
     fails = []
     if -1 in stored:
         fails.append('the directory holds a corrupt or misplaced example')
+    if -3 in stored:
+        fails.append('the cache database is locked by an open transaction (an iteration in flight holds it): nobody else can read or store')
     if -2 in stored:
         fails.append(f'the directory holds the same example under two different keys: {stored}')
     for o in outs:
